@@ -133,6 +133,8 @@ pub(crate) struct ForwardRef {
     spec: XFuncSpec,
     cell_idx: usize,
     pub(crate) fulfilled: bool,
+    /// the forward declarations the implementation that fulfilled this one depends on itself
+    impl_requirements: Vec<ForwardRefRequirement>,
 }
 
 pub struct CompilationScope<'p, W, R, T> {
@@ -272,8 +274,10 @@ impl<'p, W, R, T> CompilationScope<'p, W, R, T> {
             .iter_mut()
             .find(|f| !f.fulfilled && f.name == name && f.spec == spec)
         {
-            // todo check what happens if the fulfillment has a reference as well
+            // the implementation may itself depend on forward declarations that are not fulfilled yet: whoever depends
+            // on this declaration depends on those as well (see unmet_forward)
             fref.fulfilled = true;
+            fref.impl_requirements = forward_requirements;
             fref.cell_idx
         } else {
             let cell_idx = self.cells.ipush(Cell::Variable {
@@ -504,6 +508,7 @@ impl<'p, W, R, T> CompilationScope<'p, W, R, T> {
             spec: spec.clone(),
             cell_idx,
             fulfilled: false,
+            impl_requirements: Vec::new(),
         };
         self.forwards.push(fref);
         self.functions
@@ -518,18 +523,38 @@ impl<'p, W, R, T> CompilationScope<'p, W, R, T> {
         &self.ancestor_at_depth(depth).forwards[freq.ref_idx]
     }
 
+    /// the first forward declaration that is not fulfilled yet among `freq` and, transitively, the declarations that the
+    /// implementations of fulfilled ones depend on
+    pub(crate) fn unmet_forward(
+        &self,
+        freq: &ForwardRefRequirement,
+    ) -> Option<(ForwardRefRequirement, &ForwardRef)> {
+        let mut pending = vec![*freq];
+        let mut seen = BTreeSet::new();
+        while let Some(f) = pending.pop() {
+            if !seen.insert(f) {
+                continue;
+            }
+            let fref = self.forward_ref(&f);
+            if !fref.fulfilled {
+                return Some((f, fref));
+            }
+            pending.extend(fref.impl_requirements.iter().copied());
+        }
+        None
+    }
+
     fn require_forwards(
         &mut self,
         refs: impl IntoIterator<Item = ForwardRefRequirement>,
     ) -> Result<(), CompilationError> {
         for freq in refs {
-            let fref = &self.forward_ref(&freq);
-            if !fref.fulfilled {
-                if freq.ancestor_height == self.height {
-                    return Err(CompilationError::MissingForwardImplementation {
-                        name: fref.name,
-                        spec: fref.spec.clone(),
-                    });
+            let unmet = self
+                .unmet_forward(&freq)
+                .map(|(f, fref)| (f.ancestor_height, fref.name, fref.spec.clone()));
+            if let Some((unmet_height, name, spec)) = unmet {
+                if unmet_height == self.height {
+                    return Err(CompilationError::MissingForwardImplementation { name, spec });
                 } else {
                     self.forward_requirements.insert(freq);
                 }
